@@ -1,19 +1,19 @@
 package main
 
 import (
-	"sort"
 	"fmt"
 	"go/token"
 	"go/types"
+	"sort"
 	"strings"
 
 	"golang.org/x/tools/go/ssa"
 )
 
 type protoOutcome struct {
-	st    *sState
-	vals  []sVal
-	terms []string // printable results
+	st      *sState
+	vals    []sVal
+	terms   []string // printable results
 	restart bool
 }
 
@@ -280,29 +280,29 @@ type namedParam struct {
 	name string
 }
 
-func (n namedParam) Name() string      { return n.name }
+func (n namedParam) Name() string     { return n.name }
 func (n namedParam) Type() types.Type { return n.p.Type() }
 
 // canonParams: entry point -> parameter names by position (receiver first) as the specifications spell them
 var canonParams = map[string][]string{
-	"sm2.DerivePublic":   {"priv"},
-	"sm2.GenerateKey":    {"rand"},
-	"sm2.CheckOnCurve":   {"x", "y"},
-	"sm2.TestPrivateKey": {"priv"},
-	"sm2.ZA":             {"id", "pubx", "puby"},
-	"sm2.Sign":           {"id", "pubx", "puby", "rand", "priv", "msg"},
-	"sm2.SignZa":         {"rand", "priv", "za", "msg"},
-	"sm2.SignHashed":     {"rand", "priv", "e"},
-	"sm2.Verify":         {"id", "pubx", "puby", "msg", "r", "s"},
-	"sm2.VerifyZa":       {"pubx", "puby", "za", "msg", "r", "s"},
-	"sm2.VerifyHashed":   {"pubx", "puby", "e", "r", "s"},
-	"sm3.(*SM3).Write":   {"sm3", "data"},
-	"sm3.(*SM3).Sum":     {"sm3", "in"},
-	"sm3.(*SM3).Reset":   {"sm3"},
-	"sm3.SumSM3":         {"data"},
-	"sm4.NewCipher":      {"key"},
-	"sm4.(*sm4GcmAsm).Seal": {"g", "dst", "nonce", "plaintext", "additionalData"},
-	"sm4.(*sm4GcmAsm).Open": {"g", "dst", "nonce", "ciphertext", "additionalData"},
+	"sm2.DerivePublic":         {"priv"},
+	"sm2.GenerateKey":          {"rand"},
+	"sm2.CheckOnCurve":         {"x", "y"},
+	"sm2.TestPrivateKey":       {"priv"},
+	"sm2.ZA":                   {"id", "pubx", "puby"},
+	"sm2.Sign":                 {"id", "pubx", "puby", "rand", "priv", "msg"},
+	"sm2.SignZa":               {"rand", "priv", "za", "msg"},
+	"sm2.SignHashed":           {"rand", "priv", "e"},
+	"sm2.Verify":               {"id", "pubx", "puby", "msg", "r", "s"},
+	"sm2.VerifyZa":             {"pubx", "puby", "za", "msg", "r", "s"},
+	"sm2.VerifyHashed":         {"pubx", "puby", "e", "r", "s"},
+	"sm3.(*SM3).Write":         {"sm3", "data"},
+	"sm3.(*SM3).Sum":           {"sm3", "in"},
+	"sm3.(*SM3).Reset":         {"sm3"},
+	"sm3.SumSM3":               {"data"},
+	"sm4.NewCipher":            {"key"},
+	"sm4.(*sm4GcmAsm).Seal":    {"g", "dst", "nonce", "plaintext", "additionalData"},
+	"sm4.(*sm4GcmAsm).Open":    {"g", "dst", "nonce", "ciphertext", "additionalData"},
 	"sm4.(*sm4Cipher).Encrypt": {"sm4", "dst", "src"}, "sm4.(*sm4Cipher).Decrypt": {"sm4", "dst", "src"},
 	"sm4.(*sm4CipherAsm).Encrypt": {"sm4", "dst", "src"}, "sm4.(*sm4CipherAsm).Decrypt": {"sm4", "dst", "src"},
 	"sm4.encryptX2": {"sm4", "dst", "src"}, "sm4.decryptX2": {"sm4", "dst", "src"},
